@@ -259,6 +259,9 @@ CONTRACTS = {
     # matrix predicates: the defining equation compared with np.allclose, tolerances reaching rtol / atol by name
     "is_hermitian": ("toqito/matrix_props/is_hermitian.py", [("mat", "arr"), ("rtol", "real"), ("atol", "real")], ["is_square(mat)"],
                      lambda e: allclose(e["mat"], dag(e["mat"]), e["rtol"], e["atol"]), "is_hermitian(X, rtol, atol) == allclose(X, X^dagger, rtol=rtol, atol=atol) for square X"),
+    "is_positive_semidefinite": ("toqito/matrix_props/is_positive_semidefinite.py", [("mat", "arr"), ("rtol", "real"), ("atol", "real")], [],
+                                 lambda e: z3.And(tq("is_hermitian", B, mat=e["mat"], rtol=e["rtol"], atol=e["atol"]), pred("all((x >= -abs(atol) for x in evals))", dict(atol=e["atol"], evals=uf("np.linalg.eigh#0", Arr, e["mat"])))),
+                                 "is_positive_semidefinite(X, rtol, atol) == is_hermitian(X, rtol=rtol, atol=atol) and every eigenvalue of X is >= -|atol|"),
     "is_symmetric": ("toqito/matrix_props/is_symmetric.py", [("mat", "arr"), ("rtol", "real"), ("atol", "real")], ["is_square(mat)"],
                      lambda e: allclose(e["mat"], uf("transpose", Arr, e["mat"]), e["rtol"], e["atol"]), "is_symmetric(X) == allclose(X, X^T, rtol, atol)"),
     "is_idempotent": ("toqito/matrix_props/is_idempotent.py", [("mat", "arr"), ("rtol", "real"), ("atol", "real")], ["is_square(mat)"],
